@@ -434,6 +434,48 @@ func (x *Exec) interference(st *State) {
 	st.trace = append(st.trace, "interference: state havoc'd, object invariants assumed")
 }
 
+// privateCell: the cell of a local variable whose address is only used for loads and stores in its function and is
+// captured only by closures that read it - no callee and no other goroutine can write it.
+func privateCell(a *ssa.Alloc) bool {
+	refs := a.Referrers()
+	if refs == nil {
+		return false
+	}
+	for _, r := range *refs {
+		switch t := r.(type) {
+		case *ssa.UnOp, *ssa.DebugRef:
+		case *ssa.Store:
+			if t.Val == ssa.Value(a) {
+				return false
+			}
+		case *ssa.MakeClosure:
+			fn, ok := t.Fn.(*ssa.Function)
+			if !ok {
+				return false
+			}
+			for i, b := range t.Bindings {
+				if b != ssa.Value(a) {
+					continue
+				}
+				fvRefs := fn.FreeVars[i].Referrers()
+				if fvRefs == nil {
+					return false
+				}
+				for _, fr := range *fvRefs {
+					switch fr.(type) {
+					case *ssa.UnOp, *ssa.DebugRef:
+					default:
+						return false
+					}
+				}
+			}
+		default:
+			return false
+		}
+	}
+	return true
+}
+
 func isBackEdgeFrom(prev, b *ssa.BasicBlock) bool { return prev != nil && isBackEdge(prev, b) }
 
 func (fr *Frame) clone() *Frame {
@@ -563,7 +605,14 @@ func (x *Exec) evalInstr(st *State, fr *Frame, ins ssa.Instruction) Val {
 	switch in := ins.(type) {
 	case *ssa.Alloc:
 		t := in.Type().(*types.Pointer).Elem()
-		return st.allocObject(t, hintOf(in.Comment, "new"), true)
+		v := st.allocObject(t, hintOf(in.Comment, "new"), true)
+		if v.A != nil && v.A.Kind == "mem" && fr.isTop && privateCell(in) {
+			if st.cells == nil {
+				st.cells = map[string]string{}
+			}
+			st.cells[v.A.Ref] = v.A.Class
+		}
+		return v
 	case *ssa.FieldAddr:
 		base := x.val(st, fr, in.X)
 		x.nilCheck(st, base, in.Pos(), "field")
@@ -692,6 +741,17 @@ func (x *Exec) evalInstr(st *State, fr *Frame, ins ssa.Instruction) Val {
 	case *ssa.Range:
 		v := x.val(st, fr, in.X)
 		v.T = in.X.Type()
+		if mt, ok := in.X.Type().Underlying().(*types.Map); ok {
+			// a map iterator carries the set of keys it has produced (ghost, per iterator) and remembers the
+			// map's contents as they were when the iteration started
+			pc, _ := st.mapClasses(mt)
+			ks := sortOf(mt.Key())
+			vcls := "ghost:$visited:" + ks
+			x.w.declClass(vcls, "(Array Int (Array "+ks+" Bool))")
+			id := st.newRef("iter")
+			st.hset(vcls, "(store "+st.hget(vcls)+" "+id+" ((as const (Array "+ks+" Bool)) false))")
+			return Val{T: in.Type(), Fs: []Val{v, {S: id, Sort: "Int"}, {S: st.hget(pc), Sort: "heap"}}}
+		}
 		return Val{T: in.Type(), Fs: []Val{v}}
 	case *ssa.Next:
 		it := x.val(st, fr, in.Iter)
@@ -703,7 +763,22 @@ func (x *Exec) evalInstr(st *State, fr *Frame, ins ssa.Instruction) Val {
 		pc, vc := st.mapClasses(mt)
 		ok := st.fresh("more", "Bool")
 		kv := st.freshVal("key", mt.Key())
-		st.assume(sImp(ok, sAnd(sNot(sEq(m.S, "0")), "(select (select "+st.hget(pc)+" "+m.S+") "+kv.S+")")))
+		present := "(select (select " + st.hget(pc) + " " + m.S + ") " + kv.S + ")"
+		st.assume(sImp(ok, sAnd(sNot(sEq(m.S, "0")), present)))
+		if len(it.Fs) == 3 {
+			ks := sortOf(mt.Key())
+			vcls := "ghost:$visited:" + ks
+			vis := "(select " + st.hget(vcls) + " " + it.Fs[1].S + ")"
+			// a key is produced at most once
+			st.assume(sImp(ok, sNot("(select "+vis+" "+kv.S+")")))
+			// the iteration ends only when every key has been produced - stated only if no map of this type has
+			// been written since the iteration started (Go leaves open whether entries added meanwhile are produced)
+			if st.hget(pc) == it.Fs[2].S {
+				q := "q!vk"
+				st.assume(sImp(sAnd(sNot(ok), sNot(sEq(m.S, "0"))), "(forall (("+q+" "+ks+")) (=> (select (select "+st.hget(pc)+" "+m.S+") "+q+") (select "+vis+" "+q+")))"))
+			}
+			st.hset(vcls, "(store "+st.hget(vcls)+" "+it.Fs[1].S+" (ite "+ok+" (store "+vis+" "+kv.S+" true) "+vis+"))")
+		}
 		vv := Val{T: mt.Elem(), S: "(select (select " + st.hget(vc) + " " + m.S + ") " + kv.S + ")", Sort: sortOf(mt.Elem())}
 		st.assumeTypeInv(vv)
 		tt := in.Type().(*types.Tuple)
